@@ -63,11 +63,14 @@ def parse_records(lines):
     return recs
 
 
-def run_impl(env, name, cases, cfgs=None, release=False, timeout=600):
+def run_impl(env, name, cases, cfgs=None, release=False, timeout=None):
     """Runs the harness; a native crash (abort/segfault/stack overflow) is attributed to the case
     and configuration announced last, recorded as ending 'crash:<rc>', and the batch resumes
     after that case.  Returns dict id -> record."""
     cfgs = cfgs or CFGS
+    if timeout is None:
+        # a non-terminating program (possible under a seeded change) must not stall a quick check
+        timeout = 150 if getattr(env, "tier", "quick") == "quick" else 600
     remaining = list(cases)
     all_recs = {}
     part = 0
